@@ -35,8 +35,8 @@ META = {
         design="DESIGN.md section 4, C05"),
     "C06": dict(
         technique="property-based testing (rapidcheck, one process per case): independent planar reference construction (straight lines and circular arcs in the plane perpendicular to the trench) compared with World::distance_to_plane and with membership via the tag",
-        text="Slabs and faults on straight cartesian trenches of any position/azimuth/length and dip side, 1-4 segments (dips 5-175 degrees, arcs and kinks), thickness and top-truncation pairs, min depth up to 300 km; points generated in slab coordinates (on, just off and far from the surface, beyond the tip and the trench ends). Both reported distances must equal the construction to 1 mm + 1e-9 scale and membership must follow the statement's rule.",
-        note="Cartesian only; feet within 0.1% of a trench end, 1 mm of a segment end or ties within 1 m are skipped. Exactly collinear intermediate coordinates are a listed finding (kept at 10% of the cases).",
+        text="Slabs and faults on straight cartesian trenches of any position/azimuth/length and dip side, 1-4 segments (dips 5-175 degrees, arcs and kinks), thickness and top-truncation pairs, min depth up to 300 km; points generated in slab coordinates (on, just off and far from the surface, beyond the tip and the trench ends). Both reported distances must equal the construction to 1 mm + 1e-9 scale (+ the Newton foot tolerance for points vertically below the trench line) and membership must follow the statement's rule. Spherical: trenches along a meridian or the equator (three radii, three depth methods), points in the perpendicular vertical plane, same construction with the radius-scaled allowance 4 d^2/R applied to the point's position.",
+        note="The spherical allowance (a few per cent of the slab's extent) only exposes errors of the order of the extent itself (side, axis, unit, radius), not the depth-method corrections, which are of the order of the allowance; feet within 0.1% of a trench end, 1 mm of a segment end or ties within 1 m are skipped. Exactly collinear intermediate coordinates are a listed finding (kept at 10% of the cases).",
         design="DESIGN.md section 4, C06"),
     "C07": dict(
         technique="differential property-based testing (rapidcheck): the same world file built with and without the culling bounds (GWB_VERIF hook) must answer bit-identically; kd-tree guided surface lookup vs brute-force scan of the surface's own triangles",
